@@ -223,7 +223,8 @@ def rvalue(env, rv):
     return UNKNOWN
 
 
-def run_fragment(f, start, env, stops=(), oracle=None, max_blocks=400, on_block=None, stuck_ok=False, max_visits=1):
+def run_fragment(f, start, env, stops=(), oracle=None, max_blocks=400, on_block=None, stuck_ok=False, max_visits=1,
+                 on_store=None):
     """Walk from `start`; returns ('stop', block, env) | ('return', block, env) | ('diverge', block, env)
     | ('unreachable', block, env)."""
     visited = {}
@@ -244,7 +245,11 @@ def run_fragment(f, start, env, stops=(), oracle=None, max_blocks=400, on_block=
         blk = f.blocks[b]
         for s in blk["stmts"]:
             if s["k"] == "assign":
-                write_place(env, s["place"], rvalue(env, s["rv"]))
+                val = rvalue(env, s["rv"])
+                if on_store is not None and any(e["k"] == "deref" for e in s["place"]["proj"]):
+                    # a store through a reference: tell the client which abstract object is written
+                    on_store(env.get(s["place"]["local"], UNKNOWN), s["place"], val, b)
+                write_place(env, s["place"], val)
         t = blk["term"]
         k = t["k"]
         if k == "goto":
